@@ -15,8 +15,8 @@ func init() {
 			"T4 every Proxies entry is a struct {Object interface{}; M_ func(interface{}, params...) results} that implements the interface and whose methods forward receiver.Object then every parameter in order; " +
 			"T5 every Wrappers name is a promoted method (selection path > 1) of the named type in Go's method set; T6 Name equals the package name. " +
 			"Not decided: behaviour of the bound functions, completeness of a table with respect to newer toolchains, generated-file freshness.",
-		Assumptions: []string{"go/types view of the installed standard library (export data) is the oracle", "go/constant arithmetic", "reflect.ValueOf / TypeOf / Elem behave as documented"},
-		Rules:       []func(*Ctx){ruleImportTables, ruleImportTablesFloors},
+		Assumptions:     []string{"go/types view of the installed standard library (export data) is the oracle", "go/constant arithmetic", "reflect.ValueOf / TypeOf / Elem behave as documented"},
+		Rules:           []func(*Ctx){ruleImportTables, ruleImportTablesFloors},
 		ThoroughConfigs: []string{"linux/386", "darwin/amd64", "linux/arm64", "freebsd/amd64", "windows/386"},
 		Mutants: []Mutant{
 			{Name: "bind-swapped-func", File: "imports/strings.go", Old: `"ToUpper":	ValueOf(strings.ToUpper)`, New: `"ToUpper":	ValueOf(strings.ToTitle)`, Canary: true},
